@@ -78,7 +78,7 @@ func opTimeout(op string) time.Duration {
 		return 4 * time.Second
 	}
 	switch strings.SplitN(op, " ", 2)[0] {
-	case "live", "livex", "udfsrv", "udfwrite", "http", "jsontask":
+	case "live", "livex", "udfsrv", "udfwrite", "udfrr", "udftask", "http", "jsontask":
 		return 40 * time.Second
 	}
 	return 15 * time.Second
